@@ -444,3 +444,16 @@ package table
 //@ func (*Path).String
 //@   pure
 //@   spec-only
+
+// =============================================================================================
+// C09 — "producing a peer's copy never alters the stored route"
+// =============================================================================================
+//@ props C09
+// from C09: "to route-server clients the route is unchanged"; every other peer type gets a fresh clone
+// (the frame "no write into pre-existing memory" of the rewriting helpers is NOT claimed: ownership of the
+// clone's bookkeeping slices is not expressible across calls with the present contract language - DESIGN.md 8)
+//@ func UpdatePathAttrs
+//@   requires info != nil && original != nil && global != nil && original.GetSource() != nil
+//@   claims at-return
+//@   at-return requires old(info.RouteServerClient) ==> ret0 == original
+//@   at-return requires !old(info.RouteServerClient) ==> ret0 != nil && fresh(ret0)
